@@ -472,4 +472,15 @@ def main():
 
 
 if __name__ == "__main__":
-    sys.exit(main())
+    try:
+        rc = main()
+    except SystemExit:
+        raise
+    except BaseException:
+        # a fault of the driver itself (disk full, two runs sharing a work
+        # directory, ...) is no verdict about the property
+        import traceback
+        traceback.print_exc()
+        sys.stderr.write("INCONCLUSIVE driver error\n")
+        rc = 2
+    sys.exit(rc)
